@@ -46,6 +46,8 @@ type c19Case struct {
 	VarSeed  uint64      `json:"variant_seed"`
 	Damage   []c19Damage `json:"damaged_blocks,omitempty"`
 	How      string      `json:"how"`
+	Class    string      `json:"damage_class,omitempty"`   // part C (c19meta.go): metaindex-damage | footer-handle
+	Footer   string      `json:"footer_rewrite,omitempty"` // part C: what the footer of the table in damaged_blocks was rewritten to
 	lean     *c19Lean    // set when the case also goes to the Lean model (c19lean.go)
 }
 
@@ -320,7 +322,7 @@ func runC19(c *Ctx) {
 		return
 	}
 	defer crWorkerCheckpoint(c)()
-	c.Res.Rule = "settled DBs from random histories (150-400 puts/deletes/batches/large batches/CompactRange/reopen over 20-70 keys incl. the empty key and 0x00/0xff runs; tiny buffers so that several levels exist; the last writes stay in the journal; five comparers; bloom filter on/off; snappy on/off), closed once storage holds exactly the live files. Part A: manifest deleted / CURRENT cleared / manifest truncated at a random offset / manifest replaced by garbage, then leveldb.Recover: must succeed, full scan and every Get equal the plain map, then the DB is used (writes, CompactRange, Close) and reopened with Open with the expected contents. Part B: additionally 1-3 data blocks of live tables get one byte flipped (block boundaries from table.Reader.OffsetOf): Recover must succeed; every returned pair was written for that key at some time; every key whose newest version (value or tombstone, anywhere in the DB) lies outside the damaged blocks is returned with exactly that version; Get agrees with the scan. One evaluation = one recovered image; non-trivial = the DB had >= 2 tables and deletions (part B: at least one entry was in a damaged block); distinct by (history seed, variant, damage). Before those, on the real file storage: a process dies inside fileStorage.SetMeta (directory copied at a hooked system call of the second OpenFile), RecoverFile or OpenFile on the copy, synced writes, Close, OpenFile: every key written before and after must be readable."
+	c.Res.Rule = "settled DBs from random histories (150-400 puts/deletes/batches/large batches/CompactRange/reopen over 20-70 keys incl. the empty key and 0x00/0xff runs; tiny buffers so that several levels exist; the last writes stay in the journal; five comparers; bloom filter on/off; snappy on/off), closed once storage holds exactly the live files. Part A: manifest deleted / CURRENT cleared / manifest truncated at a random offset / manifest replaced by garbage, then leveldb.Recover: must succeed, full scan and every Get equal the plain map, then the DB is used (writes, CompactRange, Close) and reopened with Open with the expected contents. Part B: additionally 1-3 data blocks of live tables get one byte flipped (block boundaries from table.Reader.OffsetOf): Recover must succeed; every returned pair was written for that key at some time; every key whose newest version (value or tombstone, anywhere in the DB) lies outside the damaged blocks is returned with exactly that version; Get agrees with the scan. Part C (every history, alternating): one byte of the metaindex block of one, two or all live tables altered — nothing may be lost (oracle of part A); or the footer of one live table rewritten under an intact magic so that a block handle lies outside the file (offset / length just beyond or far beyond the end, 2^62, 2^63, 2^64-1, an overflowing varint; no lengths between 2^27 and 2^48) — that table counts as damaged as a whole (oracle of part B), Recover must not panic and the DB it returns must scan and Get without error. One evaluation = one recovered image; non-trivial = the DB had >= 2 tables and deletions (part B: at least one entry was in a damaged block); distinct by (history seed, variant, damage). Before those, on the real file storage: a process dies inside fileStorage.SetMeta (directory copied at a hooked system call of the second OpenFile), RecoverFile or OpenFile on the copy, synced writes, Close, OpenFile: every key written before and after must be readable."
 	once := &crSigOnce{}
 	c19FileStorageRecover(c, c.Scale(16, 300))
 	if len(c.Res.Violations) == 0 {
@@ -402,43 +404,9 @@ func c19One(c *Ctx, once *crSigOnce, r *rng.R, i int) {
 	vr := rng.New(cs.VarSeed)
 	img := d.st.Clone()
 	c19ApplyManifest(img, d, cs, vr)
-	// all versions per key, from the tables and the journal
-	vers := map[string][]*c19Ver{}
-	addVer := func(e leveldb.VerifEntry, where string) *c19Ver {
-		u, seq, kt, err := leveldb.VerifParseInternalKey(e.IKey)
-		if err != nil {
-			return nil
-		}
-		v := &c19Ver{seq: seq, del: kt == 0, val: string(e.Value), where: where}
-		vers[string(u)] = append(vers[string(u)], v)
-		return v
-	}
-	for _, e := range d.mem {
-		addVer(e, "journal")
-	}
-	type tinfo struct {
-		fd      storage.FileDesc
-		data    []byte
-		ents    []leveldb.VerifEntry
-		vs      []*c19Ver
-		blockOf []int64
-		starts  []int64
-	}
-	var tis []*tinfo
-	for _, t := range d.tables {
-		fd := storage.FileDesc{Type: storage.TypeTable, Num: t.Num}
-		data, _ := img.FileBytes(fd)
-		ents, blockOf, starts, err := crTableBlocks(data, fd, d.o)
-		if err != nil {
-			c.Res.Count("skipped", "table-unreadable-before-damage")
-			c.Res.Note("table %d of history %d unreadable before damage: %v", t.Num, h.Seed, err)
-			return
-		}
-		ti := &tinfo{fd: fd, data: data, ents: ents, blockOf: blockOf, starts: starts}
-		for _, e := range ents {
-			ti.vs = append(ti.vs, addVer(e, crFdName(fd)))
-		}
-		tis = append(tis, ti)
+	vers, tis, ok := c19Collect(c, d, img, h)
+	if !ok {
+		return
 	}
 	nd := 1 + vr.Intn(3)
 	lostEntries := 0
@@ -494,6 +462,51 @@ func c19One(c *Ctx, once *crSigOnce, r *rng.R, i int) {
 		}
 	}
 	c19Recover(c, once, d, img, cs, vers, vr)
+	// ---- part C: damaged metaindex block, footer handle beyond the file (c19meta.go) ----------------
+	c19PartC(c, once, d, h, r, i)
+}
+
+// c19TInfo: a live table of the image with its entries, their versions and data-block starts.
+type c19TInfo struct {
+	fd      storage.FileDesc
+	data    []byte
+	ents    []leveldb.VerifEntry
+	vs      []*c19Ver
+	blockOf []int64
+	starts  []int64
+}
+
+// c19Collect lists all versions per key, from the tables of the image and the journal entries.
+func c19Collect(c *Ctx, d *c19DB, img *stor.Stor, h *c19Hist) (vers map[string][]*c19Ver, tis []*c19TInfo, ok bool) {
+	vers = map[string][]*c19Ver{}
+	addVer := func(e leveldb.VerifEntry, where string) *c19Ver {
+		u, seq, kt, err := leveldb.VerifParseInternalKey(e.IKey)
+		if err != nil {
+			return nil
+		}
+		v := &c19Ver{seq: seq, del: kt == 0, val: string(e.Value), where: where}
+		vers[string(u)] = append(vers[string(u)], v)
+		return v
+	}
+	for _, e := range d.mem {
+		addVer(e, "journal")
+	}
+	for _, t := range d.tables {
+		fd := storage.FileDesc{Type: storage.TypeTable, Num: t.Num}
+		data, _ := img.FileBytes(fd)
+		ents, blockOf, starts, err := crTableBlocks(data, fd, d.o)
+		if err != nil {
+			c.Res.Count("skipped", "table-unreadable-before-damage")
+			c.Res.Note("table %d of history %d unreadable before damage: %v", t.Num, h.Seed, err)
+			return nil, nil, false
+		}
+		ti := &c19TInfo{fd: fd, data: data, ents: ents, blockOf: blockOf, starts: starts}
+		for _, e := range ents {
+			ti.vs = append(ti.vs, addVer(e, crFdName(fd)))
+		}
+		tis = append(tis, ti)
+	}
+	return vers, tis, true
 }
 
 func c14BucketSafe(n int) string {
@@ -574,6 +587,9 @@ func c19Recover(c *Ctx, once *crSigOnce, d *c19DB, img *stor.Stor, cs *c19Case, 
 	if vers != nil {
 		part = "B"
 	}
+	if cs.Class != "" {
+		part = "C-" + cs.Class
+	}
 	// D19: a damaged table is rebuilt with the caller's comparer and filter instead of the internal ones;
 	// whether Recover went through that rebuild path is read off the storage operations.
 	rebuilt := func() bool { // a rebuilt table is written to a temporary file and renamed over the damaged one
@@ -585,6 +601,9 @@ func c19Recover(c *Ctx, once *crSigOnce, d *c19DB, img *stor.Stor, cs *c19Case, 
 		return false
 	}
 	d19 := func(oracle string) string {
+		if cs.Class != "" {
+			return "recover:" + cs.Class + ":" + oracle
+		}
 		if vers != nil && rebuilt() {
 			return "recoverTable:user-comparer-filter:" + oracle
 		}
@@ -659,7 +678,11 @@ func c19Recover(c *Ctx, once *crSigOnce, d *c19DB, img *stor.Stor, cs *c19Case, 
 		c.Res.CountN("crash_in_recover", "images", len(crashImgs))
 		for i, ci := range crashImgs {
 			if sig, msg := c19AfterCrashInRecover(d, ci, cs.Manifest == "deleted" || cs.Manifest == "current-cleared"); sig != "" {
-				once.report(c, "recover:crash-inside-Recover:"+sig, fmt.Sprintf("image %d of %d taken inside Recover: %s", i, len(crashImgs), msg), cs)
+				csig := "recover:crash-inside-Recover:" + sig
+				if cs.Class != "" {
+					csig = d19("crash-inside-Recover:" + sig)
+				}
+				once.report(c, csig, fmt.Sprintf("image %d of %d taken inside Recover: %s", i, len(crashImgs), msg), cs)
 				break
 			}
 		}
